@@ -13,6 +13,14 @@ CHECKS = {
           "cases over n in 1..1023. Sampling, not proof, above the enumerated widths.",
           "Trusts Python int arithmetic as the reference; PythonBits is the implementation in use (no mamba).",
           "DESIGN.md 3/C04"),
+  "C05": ("exploration",
+          "property-based testing (Hypothesis) + exhaustive enumeration of small widths against shift/mask integer oracle",
+          "Bit/slice get and set (valid and invalid bounds, steps, Bits-typed bounds, too-wide values, frame condition), "
+          "concat/zext/sext/trunc/reduce_* and clog2 are compared with integer shift/mask definitions: all (lo,hi,x) for "
+          "n<=5 (quick) / n<=8 (thorough), clog2 around every power of two up to 2^80, plus generated cases over n in 1..1023.",
+          "Trusts Python int arithmetic; cases the statement leaves open (narrower value into a slice, extension to a narrower "
+          "target) are not judged.",
+          "DESIGN.md 3/C05"),
 }
 
 NOT_YET = {}
